@@ -1,0 +1,17 @@
+//go:build verif
+
+// ASSUMED summary of the transition engine's dispatch, needed by C15 (app.doEthTransitions). Comment-only file.
+// (*engine).Process looks the transition up in a map filled by event.init() and calls its function value: a dynamic
+// call the verifier cannot resolve. A-DISPATCH: for a *ethereum.TrackerCtx context, Process runs at most one of the
+// transition functions of package event (Broadcasting, Finalizing, Finalization, Cleanup, CleanupFailed, Signing,
+// VerifyRedeem, RedeemConfirmed, redeemCleanup, redeemCleanupFailed) on ctx. The contract below is the union of THEIR
+// PROVED contracts (/repo/event/verif_contracts.go): frame = the tracker object's State, the context's Tracker field,
+// and the records of that one tracker in the context's tracker store.
+
+package transition
+
+//@ interface Engine
+//@   method Process
+//@     requires evOK(arg1)                                                                                     // C15.transition-ctx
+//@     modifies evC(arg1).Tracker, evC(arg1).Tracker.State, evC(arg1).TrackerStore.prefix, trkHas(evC(arg1).TrackerStore), trkType(evC(arg1).TrackerStore), trkState(evC(arg1).TrackerStore), trkOwner(evC(arg1).TrackerStore), trkTx(evC(arg1).TrackerStore), trkTo(evC(arg1).TrackerStore), trkN(evC(arg1).TrackerStore), trkYes(evC(arg1).TrackerStore), trkNo(evC(arg1).TrackerStore), trkWitAt(evC(arg1).TrackerStore), trkSlot(evC(arg1).TrackerStore), vHas(evC(arg1).TrackerStore.state), vVal(evC(arg1).TrackerStore.state)
+//@     ensures evC(arg1).Tracker == old(evC(arg1).Tracker) && trkOthersSame(evC(arg1).TrackerStore, evN(arg1))   // C15.cleanup-other-trackers-untouched
